@@ -148,7 +148,7 @@ def jobs(tier, seed):
         sk = automaton(sh)
         drops = [[]] + [sorted(rnd.sample(range(len(sk.arcs)), k)) for k in ([1, 2] if quick else [1, 1, 2, 2, 3])]
         for d in drops:
-            out.append(dict(case="support", params=dict(shape=sh, L=7 if quick else 9, drop=d), timeout=900))
+            out.append(dict(case="support", params=dict(shape=sh, L=8 if quick else 10, drop=d), timeout=900))
     out.append(dict(case="support", params=dict(shape="A-S1", L=4, drop=[], canary=True)))
     for sh, bits in ([("A-DAG", [0, 1])] if quick else [("A-DAG", [0, 1, 2]), ("A-DAG2", [0, 1]), ("A-D4", [0])]):
         sk = automaton(sh)
